@@ -24,7 +24,7 @@ mod harness {
             fn $name() {
                 let $a = any_num_scalar();
                 let $b = any_num_scalar();
-                $body
+                $body;
                 forget($a);
                 forget($b);
             }
